@@ -381,6 +381,8 @@ class CallMachine(Machine):
     def step_arm64(self, line):
         X = lambda tok: self.reg_index(tok)
         two64 = 1 << 64
+        if not line.startswith(("movz ", "movk ")):
+            self.lanes = {}               # lanes are only remembered across an uninterrupted movz/movk sequence
         m = re.fullmatch(r"(sub|add) sp, sp, #(\S+)", line)
         if m:
             k = self.int_operand(m.group(2), line, 0, 1 << 24)      # add/sub (immediate): 12 bits, optionally shifted by 12
@@ -403,6 +405,9 @@ class CallMachine(Machine):
         m = re.fullmatch(r"movz (\S+), #(\S+)", line)
         if m:
             v = self.int_operand(m.group(2), line, 0, 1 << 16, radix_prefix="0x" if m.group(2).startswith("0x") else "")
+            # remember the four 16-bit lanes of a register built by movz/movk (keeps later movk free of div/mod terms)
+            self.lanes = getattr(self, "lanes", {})
+            self.lanes[m.group(1)] = [v, z3.IntVal(0), z3.IntVal(0), z3.IntVal(0)]
             return self.set(X(m.group(1)), v)
         m = re.fullmatch(r"movk (\S+), #(\S+), lsl #(\d+)", line)
         if m:
@@ -411,6 +416,11 @@ class CallMachine(Machine):
             if s not in (0, 16, 32, 48):
                 raise Unmodelled("movk shift " + line)
             r = X(m.group(1))
+            lanes = getattr(self, "lanes", {}).get(m.group(1))
+            if lanes is not None:
+                # MOVK replaces exactly lane s/16 (each lane is a value in [0, 2^16) by the operand range obligations)
+                lanes[s // 16] = v
+                return self.set(r, z3.Sum([l * (1 << (16 * i)) for i, l in enumerate(lanes)]))
             old = self.get(r)
             return self.set(r, old - ((old / (1 << s)) % (1 << 16)) * (1 << s) + v * (1 << s))
         m = re.fullmatch(r"adrp (\S+), (\S+)", line)
